@@ -104,16 +104,21 @@ def current_hash():
 
 
 def _prune(flavor, keep):
-    """Remove cache entries of this flavor that have not been used for 3 hours (or beyond the newest 8)."""
+    """Remove cache entries of this flavor that have not been used for 5 hours.  Purely age based: a running check
+    touches its flavor directory on every get(), and other checks (or mutant runs) may be using older entries."""
     try:
         ents = [e for e in os.listdir(CACHE) if e.startswith(flavor + "-") and not e.endswith(".lock")]
     except OSError:
         return
     now = time.time()
-    ents = [(os.path.getmtime(os.path.join(CACHE, e)), e) for e in ents if e != keep]
-    ents.sort(reverse=True)
-    for i, (mt, e) in enumerate(ents):
-        if i >= 8 or now - mt > 3 * 3600:
+    for e in ents:
+        if e == keep:
+            continue
+        try:
+            mt = os.path.getmtime(os.path.join(CACHE, e))
+        except OSError:
+            continue
+        if now - mt > 5 * 3600:
             shutil.rmtree(os.path.join(CACHE, e), ignore_errors=True)
             try:
                 os.unlink(os.path.join(CACHE, e + ".lock"))
